@@ -84,8 +84,8 @@ func (m *c16Model) del(k string) {
 	delete(m.vals, k)
 }
 
-//verif:entry tier=quick,thorough steps=3000000 cover=evicted,hit,miss,loaderr
-//verif:doc Cache/keyLru: limit in {1,2} (quick) / {0(unbounded),1,2,3} (thorough); 3 (quick) / 4 (thorough) operations, each symbolically Set/Get/Del/Take(loader ok)/Take(loader error) on a key from {a,b,c}; values symbolic; wheel ticker silent. Model: recency list + map.
+//verif:entry tier=quick,thorough steps=3000000 cover=evicted,hit,miss,loaderr,prefilled
+//verif:doc Cache/keyLru: limit in {1,2} (quick) / {0(unbounded),1,2,3} (thorough); 3 (quick) / 4 (thorough) operations, each symbolically Set/Get/Del/Take(loader ok)/Take(loader error) on a key from {a,b,c}, starting from an empty cache or (with one operation less) from one that already holds a (older) and b (newer); values symbolic; wheel ticker silent. Model: recency list + map.
 func Verif_C16_CacheLRU() {
 	limits := []int{1, 2}
 	nops := 3
@@ -98,6 +98,17 @@ func Verif_C16_CacheLRU() {
 	m := &c16Model{limit: limit, vals: map[string]int64{}}
 	keys := []string{"a", "b", "c"}
 	errLoad := errors.New("c16: load failed")
+	if rt.Choose("prefilled", 2) == 1 {
+		// start from a cache that already holds a (older) and b (newer), so that 3 further operations
+		// reach "overwrite the oldest key, then insert beyond the limit"
+		for j, k := range keys[:2] {
+			v := int64(100 + j)
+			c.Set(k, v)
+			m.set(k, v)
+		}
+		rt.Cover("prefilled")
+		nops-- // same depth as the empty start
+	}
 	for i := 0; i < nops; i++ {
 		k := keys[rt.Choose("key", len(keys))]
 		switch rt.Choose("op", 5) {
